@@ -100,6 +100,7 @@ type model struct {
 	internal  []string
 	counts    map[string]int64
 	strict    bool
+	overflow  bool // state explosion: the model gives no verdict
 }
 
 func (m *model) prepass() {
@@ -218,9 +219,6 @@ func (m *model) closure(set map[string]*mstate) map[string]*mstate {
 				continue
 			}
 			seenPeer[a.peer] = true
-			if !a.ok && a.start != 0 {
-				// never left the liar
-			}
 			succ = append(succ, m.arrive(s, a)...)
 		}
 		for _, c := range succ {
@@ -229,6 +227,7 @@ func (m *model) closure(set map[string]*mstate) map[string]*mstate {
 				out[k] = c
 				work = append(work, c)
 				if len(out) > 20000 {
+					m.overflow = true
 					return out
 				}
 			}
@@ -314,14 +313,18 @@ func (m *model) run(strict bool) *modelFail {
 				return true
 			})
 			if len(set) == 0 {
-				m.internal = append(m.internal, fmt.Sprintf("model lost all states at chunk-ack event %d", e.N))
+				if !m.overflow {
+					m.internal = append(m.internal, fmt.Sprintf("model lost all states at chunk-ack event %d", e.N))
+				}
 				return nil
 			}
 		case "sp-call":
 			if e.M == "AppHash" {
 				set = filter(m.closure(set), func(s *mstate) bool { return len(s.steps) == 0 })
 				if len(set) == 0 {
-					m.internal = append(m.internal, fmt.Sprintf("model lost all states at AppHash call event %d", e.N))
+					if !m.overflow {
+						m.internal = append(m.internal, fmt.Sprintf("model lost all states at AppHash call event %d", e.N))
+					}
 					return nil
 				}
 			}
@@ -345,6 +348,9 @@ func (m *model) run(strict bool) *modelFail {
 				a := m.arr[s.slot[i]]
 				return a.peer == e.P && e.P >= 0 && a.b == e.B
 			})
+			if m.overflow {
+				return nil
+			}
 			if len(ok) == 0 {
 				return m.diagnose(e, ready)
 			}
@@ -404,7 +410,7 @@ func (m *model) run(strict bool) *modelFail {
 					_, more := s.nextUp()
 					return !more && s.n > 0
 				})
-				if len(done) == 0 {
+				if len(done) == 0 && !m.overflow {
 					return &modelFail{at: e.N, ev: e, key: "sync-succeeded-with-chunks-outstanding",
 						what: "Sync returned success although, in every interleaving, some chunk was still to be (re)applied"}
 				}
